@@ -681,3 +681,159 @@ pub fn feature_roots() -> Vec<RefPos> {
     }
     out
 }
+
+// ------------------------------------------------------------------------------------------
+// Terminal-position constructions (C04): every checkmate / stalemate of the complete 3-man sets
+// in which the lone king's side is to move serves as a base; men are added around the boxed
+// king so that rich terminal and near-terminal positions arise by construction.
+
+/// All terminal positions (no legal move) of K+X v K with the lone king to move.
+pub fn bare_king_terminals() -> Vec<RefPos> {
+    let mut out = vec![];
+    for f in three_man_families() {
+        if f.men.is_empty() {
+            continue;
+        }
+        let owner = f.men[0].1;
+        out.extend(collect(&f).into_iter().filter(|p| p.stm != owner && p.legal_moves().is_empty()));
+    }
+    out
+}
+
+const DIRS8: [(i8, i8); 8] = [(1, 0), (1, 1), (0, 1), (-1, 1), (-1, 0), (-1, -1), (0, -1), (1, -1)];
+
+/// One way of pinning a man of the side to move to its king: direction from the king, distance
+/// of the pinned man, kind of the pinned man, distance of the pinner, kind of the pinner.
+#[derive(Clone, Copy)]
+pub struct PinSpec {
+    dir: usize,
+    d1: i8,
+    kind: Kind,
+    d2: i8,
+    pinner: Kind,
+}
+pub fn pin_specs() -> Vec<PinSpec> {
+    let mut v = vec![];
+    for dir in 0..8 {
+        for d1 in 1..=2i8 {
+            for d2 in (d1 + 1)..=(d1 + 2) {
+                for kind in [Kind::P, Kind::N, Kind::B, Kind::R, Kind::Q] {
+                    let orth = dir % 2 == 0;
+                    for pinner in [if orth { Kind::R } else { Kind::B }, Kind::Q] {
+                        v.push(PinSpec { dir, d1, kind, d2, pinner });
+                    }
+                }
+            }
+        }
+    }
+    v
+}
+fn apply_pin(p: &mut RefPos, ksq: Sq, me: Col, s: &PinSpec) -> bool {
+    let (df, dr) = DIRS8[s.dir];
+    let (f, r) = (file_of(ksq), rank_of(ksq));
+    let a = (f + df * s.d1, r + dr * s.d1);
+    let b = (f + df * s.d2, r + dr * s.d2);
+    if !on_board(a.0, a.1) || !on_board(b.0, b.1) {
+        return false;
+    }
+    // squares between king and pinner other than the pinned man's must be empty
+    for d in 1..s.d2 {
+        if d != s.d1 && p.at(sq(f + df * d, r + dr * d)).is_some() {
+            return false;
+        }
+    }
+    place(p, sq(a.0, a.1), s.kind, me) && place(p, sq(b.0, b.1), s.pinner, me.flip())
+}
+
+/// Terminal base + one or two pinned men (with their pinners) of the boxed side.
+pub struct PinnedTerminalFamily {
+    pub bases: Vec<RefPos>,
+    pub specs: Vec<PinSpec>,
+    pub two: bool,
+}
+impl Family for PinnedTerminalFamily {
+    fn name(&self) -> String {
+        format!("bare-king mates and stalemates of the 3-man sets ({} bases) with {} pinned man/men and pinner(s) added next to the boxed king", self.bases.len(), if self.two { "two" } else { "one" })
+    }
+    fn size(&self) -> u64 {
+        let n = self.specs.len() as u64;
+        self.bases.len() as u64 * if self.two { n * n } else { n }
+    }
+    fn get(&self, mut i: u64) -> Option<RefPos> {
+        let n = self.specs.len() as u64;
+        let s1 = take(&mut i, n) as usize;
+        let s2 = if self.two { Some(take(&mut i, n) as usize) } else { None };
+        let mut p = self.bases[i as usize];
+        let me = p.stm;
+        let ksq = p.king_sq(me)?;
+        if let Some(s2) = s2 {
+            // unordered pairs on different lines only
+            if s2 <= s1 || self.specs[s1].dir == self.specs[s2].dir {
+                return None;
+            }
+        }
+        if !apply_pin(&mut p, ksq, me, &self.specs[s1]) {
+            return None;
+        }
+        if let Some(s2) = s2 {
+            if !apply_pin(&mut p, ksq, me, &self.specs[s2]) {
+                return None;
+            }
+        }
+        valid(p)
+    }
+}
+
+/// Terminal base + an en-passant pattern of the boxed side: its pawn beside a just double-pushed
+/// enemy pawn, the pawn's own push square empty or blocked by an enemy man, and optionally an
+/// enemy bishop / queen further along the capture diagonal.
+pub struct EpTerminalFamily {
+    pub bases: Vec<RefPos>,
+}
+impl Family for EpTerminalFamily {
+    fn name(&self) -> String {
+        format!("bare-king mates and stalemates ({} bases) with an en-passant pattern of the boxed side added (pawn, double-pushed enemy pawn, optional blocker of the push square, optional slider on the capture diagonal)", self.bases.len())
+    }
+    fn size(&self) -> u64 {
+        self.bases.len() as u64 * 8 * 2 * 6 * 3 * 5
+    }
+    fn get(&self, mut i: u64) -> Option<RefPos> {
+        let f = take(&mut i, 8) as i8;
+        let d = if take(&mut i, 2) == 0 { -1i8 } else { 1 };
+        let blocker = take(&mut i, 6);
+        let slider = take(&mut i, 3);
+        let dist = take(&mut i, 5) as i8 + 1;
+        let mut p = self.bases[i as usize];
+        let me = p.stm;
+        let pusher = me.flip();
+        let r = pusher.dp_rank();
+        if !(0..8).contains(&(f + d)) {
+            return None;
+        }
+        // pushed enemy pawn on file f, my pawn on file f + d, same rank
+        if !place(&mut p, sq(f, r), Kind::P, pusher) || !place(&mut p, sq(f + d, r), Kind::P, me) {
+            return None;
+        }
+        if blocker > 0 {
+            let k = [Kind::P, Kind::N, Kind::B, Kind::R, Kind::Q][(blocker - 1) as usize];
+            if !place(&mut p, sq(f + d, r + me.dir()), k, pusher) {
+                return None;
+            }
+        }
+        if slider > 0 {
+            // along the capture direction beyond the target square
+            let (tf, tr) = (f, r + me.dir());
+            let (sf, sr) = (tf - d * dist, tr + me.dir() * dist);
+            if dist == 0 || !on_board(sf, sr) {
+                return None;
+            }
+            if !place(&mut p, sq(sf, sr), if slider == 1 { Kind::B } else { Kind::Q }, pusher) {
+                return None;
+            }
+        } else if dist != 1 {
+            return None;
+        }
+        p.dp = f;
+        valid(p)
+    }
+}
